@@ -900,6 +900,11 @@ func runStreamProp(c *Ctx, mk func(i int) *streamProfile) error {
 	if err := runStreamScenarios(c); err != nil {
 		return err
 	}
+	if c.Prop == "C25" {
+		if err := runC25ChooseByContent(c); err != nil {
+			return err
+		}
+	}
 	if c.Prop == "C24" {
 		// loads that span several loader batches (c24load.go)
 		if err := runLoaderScenarios(c); err != nil {
